@@ -74,6 +74,10 @@ CHECKS = {
    "exhaustive input enumeration of the real codecs: all values x all <=3-piece read splits x all proper prefixes x hostile length fields, allocation measured in rlimit-ed worker subprocesses",
    "Every frame type with names {empty, a, 255 B, all byte values, 64 KiB} and six integer values, six position maps and 120 chunk writer/reader configurations around the 65535 limit are encoded by the real writers and decoded by the real readers under every split into at most three reads (complete for encodings up to 64 bytes, boundary-focused above) and one byte at a time; every proper prefix must be an error and never a clean EOF; every length field is replaced by five hostile values and the decoder's allocation must stay within 1 MiB + 64 x bytes received; ReadFullAt is run over every short-read/EOF script for buffers up to 4.",
    "Random byte strings are replaced by exhaustive families. Go runtime MemStats trusted for allocation measurement.", "§4 C18"),
+ "C14": ("model_checking", "E1-histories",
+   "explicit-state BFS over histories of commits, drops, sweeps, restarts, fail-overs, sync calls with and without one injected fault, and service mutations, on a real cluster running the real file and LiteFS Cloud backup clients; the service's files are decoded independently after every event",
+   "For both client implementations (litefs.FileBackupClient on a directory; lfsc.BackupClient against a local server speaking GET /pos, POST /db/tx, GET /db/snapshot with EPOSMISMATCH errors) every history up to the depth bound over {two transaction shapes, checkpoint, drop, re-create, retention sweep with aged files, primary restart, partition/heal/demote (fail-over with a forked former primary), one Store.SyncBackup call healthy or with one of six faults (upload refused, upload stored but reply lost, upload cut, position map unavailable, snapshot unavailable, snapshot cut), service rolled back by one file / one transaction ahead / forked at its newest file / wiped} from start states incl. a 257-transaction backlog is executed; the same alphabet is also run against the store's own continuous sync loop with its cached position map. After every event: the service holds one contiguous chain from TXID 1 whose every boundary position and restored image is one some primary committed; no file on the service was removed or rewritten by a node; no node (primary or replica, via HWM frames) publishes a high-water mark above the largest TXID the service held when it acknowledged; after every healthy sync the service is at the primary's position with a byte-identical restored image (the primary having adopted the service's state where it was ahead, forked or not extendable) or at least 256 transactions closer; all C01/C04/C09/C15 cluster monitors run as well.",
+   "Same lab as C01. The service's durable state is a directory of LTX files; the local LiteFS Cloud server is verif's own (it checks contiguity as the real service is documented to). A restore that was not necessary (e.g. after a transient upload error) is not judged: the property does not forbid it.", "§4 C14"),
  "C20": ("model_checking", "E1-inputs",
    "exhaustive request matrix sent over real loopback TCP (HTTP/1.1 and h2c) to the real API server of a primary, a replica and a node without a primary; node digest compared around every request",
    "Every endpoint (/stream, /tx, /halt, /handoff, /promote, /import, /export, /info, /events, an unknown path) x 5 methods x {missing, empty, unknown, valid, misspelt} names x six id / lockID / nodeID spellings (missing, non-numeric, overflowing, negative, zero, valid) x own / foreign / malformed / absent Litefs-Id x {empty, garbage, valid, truncated, hostile-length} bodies, on each of three roles and both protocols, plus the /halt and /tx part again while another caller holds a halt lock: each request must get an HTTP response, log no panic, not stop the node, leave GET /info answering, and - when it is malformed, not allowed in the role or names a missing database/lock - leave databases, positions, logical images, LTX directory contents, the twelve lock tables and the halt lock exactly as before (a foreign caller's halt lock is never disturbed by a request that does not name it).",
